@@ -48,8 +48,8 @@ impl Pe {
     invariant vapor.temperature == self.vapor.temperature, liquid.temperature == self.liquid.temperature
 //@end
 
-/// contract of PhaseEquilibrium::update_pressure (every phase re-created at the given temperature; the loop over the
-/// phases is not verified - stated)
+/// contract of PhaseEquilibrium::update_pressure (every phase re-created at the given temperature: discharged for an
+/// arbitrary iteration of its loop in unit flash_spec, contract_c05_5_update_pressure)
 #[verifier::external_body] pub fn update_pressure(self, t: Tq) -> (r: Result<Pe, SkErr>)
     ensures r is Ok ==> r->Ok_0.vapor.temperature == t && r->Ok_0.liquid.temperature == t { unimplemented!() }
 /// check_trivial_solution returns the pair unchanged or an error
